@@ -2,6 +2,7 @@ import RimuProofs.Lemmas.Fuel
 import RimuProofs.Lemmas.Groups
 import RimuProofs.Facts
 import RimuProofs.Props.C20
+import RimuProofs.Lemmas.SafeBlock
 
 /-!
 # C01  render() is total: always returns a string, never raises
@@ -20,9 +21,23 @@ where the Python code would raise.  Proved here (for every text, session, nested
   run out of fuel only through a nested span render (`inline_layer_fuel`), which is the known finding F5;
 * placeholders: a missing queue entry is the only exception of `postReplacements` (C16).
 
-Not proved: absence of the other exception kinds at every call site of the block layer for every input (it needs a
-group-participation fact per pattern and call site); they are covered by the correspondence check, whose two sides
-must raise the same kind of exception or none, on generated, malformed, mutated and stress inputs.
+* **the exception footprint of the whole renderer** (`render_raises_only_allowed_outcomes`,
+  `render_from_any_reachable_session`): from a freshly imported package and from every session that any history of
+  `render` calls can reach - whatever the sources, option values and `compile` oracles of that history - a `render` call
+  either returns (in a session that again satisfies the invariant `Inv`) or ends in an outcome that is `Allowed`:
+  an outcome of the model that is not a Python exception (`modelOnly`: fuel exhausted, a run-time pattern outside the
+  modelled fragment) or one of the raise sites enumerated in `residual`.  Every other raise site of the model is
+  unreachable: no `match[i]` read as a string is `None` (all 50 call sites, including the delimiter, class-name,
+  marker, term and definition groups of every line-block, list and delimited-block rule and of every redefinable
+  delimited-block table a session can hold), no `params[0]`, `opt[0]`, `match[1][0]` indexes an empty string, the close
+  tag of a block definition is never `None`.  `not_residual_examples` lists them as corollaries.
+
+Not excluded (`residual`, each named by its site): the placeholder queue (`savedReplacements.pop(0)`, needs the
+placeholder accounting of `spans.render`; cf. C16), `int()` on the digits of `$n` (needs the digit table), the
+assertions `m is not None` / `qdef is not None` and `match[0][0]`, `quote[0]` (need completeness of the matcher or a
+language argument about the quote pattern), `not self.eof()`, `ids.pop()`, `reader.lines[pos:pos]` (need the reader and
+list-stack invariants), the groups of replacement definitions whose pattern text a document re-compiled.  For these
+the correspondence check (same exception kind or none on both sides) is what decides.
 -/
 
 namespace Props.C01
@@ -179,26 +194,6 @@ theorem quote_groups_are_strings (defs : List QuoteDef) (text : Str) (start : Na
     (∃ q, (mt.str 1 site).run s = .ok (q, s)) ∧ (∃ t, (mt.str 2 site).run s = .ok (t, s)) :=
   ⟨(Pat.search_of hs h).str (Facts.quotesRe_set defs).1 site s, (Pat.search_of hs h).str (Facts.quotesRe_set defs).2 site s⟩
 
-/-- a delimited-block definition value `'<open>|<close> options'`: when the open tag is there so is the close tag
-    (the `None` that `setDefinition` would otherwise store as a tag) -/
-theorem block_definition_tags_come_together (value : Str) (mt : Match)
-    (h : Gen.P.delimitedblocks_setDefinition_0.search value = some mt) (o : Str)
-    (h1 : mt.res.group mt.inp 1 = some o) : ∃ c, mt.res.group mt.inp 2 = some c := by
-  obtain ⟨hn, hM, _⟩ := Pat.search_of (Nat.zero_le _) h
-  have hset1 : Rx.IsSet mt.res.caps 1 := by
-    unfold Rx.MatchRes.group Rx.MatchRes.span at h1
-    simp only [Nat.succ_ne_zero, if_false] at h1
-    split at h1
-    · next a b hab => exact ⟨(a, b), hab⟩
-    · cases h1
-  have hinit : ¬ Rx.IsSet (List.replicate (Gen.P.delimitedblocks_setDefinition_0.ngroups + 1) (none : Option (Nat × Nat))) 1 := by
-    rintro ⟨v, hv⟩
-    simp [List.getD_eq_getElem?_getD, List.getElem?_replicate] at hv
-    split at hv <;> simp at hv
-  have := hM.coSets Facts.blockdef_tags_together (by simp; decide) (fun h => absurd h hinit) hset1
-  exact Rx.group_of_isSet this
-
-
 /-- `Safe E (m.str i)` for every footprint `E`: reading a group that is set cannot raise -/
 theorem safe_str {E : PyErr → Prop} {m : Match} {p : Pat} {i : Nat} (h : m.Of p) (hp : p.Sets i = true) (site : String) :
     Safe E (m.str i site) := by
@@ -242,6 +237,43 @@ theorem injectHtmlAttributes_never_raises (tag : Str) (consume : Bool) : Safe (f
     safe_go
   unfold injectHtmlAttributes
   safe_go
+
+/-! ## The exception footprint of `render`, from every reachable session -/
+
+/-- **Every `render` call returns or ends in an `Allowed` outcome**, from a freshly imported package or a session that
+    satisfies the invariant, and the invariant holds again afterwards. -/
+theorem render_raises_only_allowed_outcomes (env : Env) (fuel : Nat) (src : Str) (opts : RenderOptions) (s : Session)
+    (h : s.safeMode = -1 ∨ Inv s) :
+    match (apiRender env fuel src opts).run s with
+    | .ok (_, s') => Inv s'
+    | .error e => Allowed e := by
+  have := apiRender_ok env fuel src opts s h
+  unfold wpE at this
+  split at this
+  · next a s' hr => rw [hr]; exact this
+  · next e hr => rw [hr]; exact this
+
+/-- every session that a history of `render` calls can reach is uninitialised or satisfies the invariant -/
+theorem reach_inv {s : Session} (h : Reach s) : s.safeMode = -1 ∨ Inv s := by
+  induction h with
+  | fresh => exact .inl rfl
+  | render env fuel src opts html _ hr ih => exact .inr (wpE_ok (apiRender_ok env fuel src opts _ ih) hr)
+
+/-- **... hence from every reachable session**: any sources, any option values, any `compile` oracles before. -/
+theorem render_from_any_reachable_session {s : Session} (h : Reach s) (env : Env) (fuel : Nat) (src : Str)
+    (opts : RenderOptions) (e : PyErr) (he : (apiRender env fuel src opts).run s = .error e) : Allowed e :=
+  wpE_err (apiRender_ok env fuel src opts s (reach_inv h)) he
+
+/-- what `Allowed` excludes, spelled out for the exception kinds of the F1 / F2 class: a group read as a string that is
+    `None` (any of the default-site reads), a missing close tag, indexing an empty parameter list, option or fence -/
+theorem not_residual_examples :
+    ¬ Allowed (.noneType "group") ∧ ¬ Allowed (.noneType "closeTag") ∧ ¬ Allowed (.indexError "params[0]") ∧
+    ¬ Allowed (.indexError "opt[0]") ∧ ¬ Allowed (.indexError "match[1][0]") ∧ ¬ Allowed (.reError "x") := by
+  decide
+
+/-- the outcomes that are allowed and are not Python exceptions -/
+theorem allowed_model_outcomes (p : Str) (f : Nat) :
+    Allowed .outOfFuel ∧ Allowed (.unsupportedRegex p) ∧ Allowed (.needCompile p f) := ⟨rfl, rfl, rfl⟩
 
 /-- instance (kernel evaluation): a header line sets both groups the header filter reads -/
 example : (match Gen.P.lineblocks_defs_6.search "## Title".toList with
